@@ -419,7 +419,7 @@ TREE_MUTATIONS = ["unknown_tag", "ext_not_allowed", "ext_existing_term", "requir
                   "def_undeclared", "def_value_missing", "def_value_extra", "defexpand_altered", "duplicate_tag",
                   "duplicate_group", "taggroup_tag_at_top", "toplevel_group_nested", "definition_in_string",
                   "unique_twice", "empty_group", "onset_extra_group", "onset_no_def", "offset_with_group",
-                  "duration_two_groups"]
+                  "duration_two_groups", "ext_bad_char"]
 TEXT_MUTATIONS = ["paren_extra_open", "paren_extra_close", "paren_removed", "paren_wrong_order", "double_comma",
                   "leading_comma", "trailing_comma", "comma_missing_before_group", "comma_missing_after_group",
                   "forbidden_char"]
@@ -472,7 +472,7 @@ def mutated(draw, ann, kinds=None, start=0):
         ok = True
         if k == "ext_not_allowed":
             ok = bool(unused(pl.not_extendable))
-        elif k == "ext_existing_term":
+        elif k in ("ext_existing_term", "ext_bad_char"):
             ok = bool(unused(pl.extendable))
         elif k == "requires_child":
             ok = bool(pl.require_child) or pl.has["def"]
@@ -536,6 +536,11 @@ def mutated(draw, ann, kinds=None, start=0):
         node = pick(unused(pl.not_extendable))
         _insert_somewhere(draw, tree, make_tag(f"{spelled(draw, node, m)}/{fresh_ext(draw, pl)}", "bad", kind="bad"))
         expect = "TAG_EXTENSION_INVALID"
+    elif kind == "ext_bad_char":
+        node = pick(unused(pl.extendable))
+        bad = draw(st.sampled_from(["Xq$z", "Ab=c", "q@r9", "Zz%", "new!one"]))
+        _insert_somewhere(draw, tree, make_tag(f"{spelled(draw, node, m)}/{bad}", "bad", kind="bad"))
+        expect = "CHARACTER_INVALID"
     elif kind == "ext_existing_term":
         node = pick(unused(pl.extendable))
         top = node.long.split("/")[0]
